@@ -131,7 +131,8 @@ def run_life(ctx, fzf, sid, sc):
     life = Life(ctx, fzf, sid, sc["cfg"], extra_args=sc["extra"], size=tuple(sc["size"]), default_command=sc.get("default_command"),
                 input_cmd=sc.get("input_cmd"), cmds=cmds)
     try:
-        life.init()
+        if not life.init():
+            return life.finish(grace=20)
         for k in sc["startup"]:
             life.await_child(k)
         for st in sc["steps"]:
@@ -230,7 +231,8 @@ def run_robust(ctx, fzf, sid, sc):
     life = TmuxLife(ctx, fzf, sid, sc["cfg"], extra_args=sc["extra"], input_bytes=sc["data"].encode("latin-1"), size=tuple(sc["size"]))
     t = life.t
     try:
-        life.init()
+        if not life.init():
+            return life.finish()
         typed = False
         for i, st in enumerate(sc["steps"]):
             if life.gone():
@@ -377,19 +379,33 @@ def run(ctx):
 
     def do(ix):
         sc = scenarios[ix]
-        try:
-            return ix, runner(sc)(ctx, fzf, ix, sc)
-        except Infra as ex:
-            raise Infra("life %d (%s): %s\nscenario: %s" % (ix, sc["kind"], ex, json.dumps({k: v for k, v in sc.items() if k != "data"})[:1500]))
+        for attempt in (0, 1):
+            try:
+                return ix, runner(sc)(ctx, fzf, ix, sc)
+            except Infra as ex:
+                # the terminal emulator itself died (tmux 3.3a does, rarely, at tiny sizes): no observation, no verdict
+                if sc["kind"] == "R" and any(m in str(ex) for m in ("server exited unexpectedly", "no server running", "lost server", "pane's tty is gone")):
+                    log("life %d: tmux died (%s)%s" % (ix, str(ex)[:120], ", trying once more" if attempt == 0 else ", skipped"))
+                    with open(os.path.join(ctx.work, "..", "C14-skipped-%d.json" % ix), "w") as fh:
+                        json.dump({"scenario": sc, "error": str(ex)}, fh)
+                    continue
+                raise Infra("life %d (%s): %s\nscenario: %s" % (ix, sc["kind"], ex, json.dumps({k: v for k, v in sc.items() if k != "data"})[:1500]))
+        return ix, None
     results = {}
     with ThreadPoolExecutor(max_workers=PAR) as ex:
         for ix, evs in ex.map(do, range(len(scenarios))):
             results[ix] = evs
+    skipped = sorted(ix for ix in results if results[ix] is None)
+    if len(skipped) > max(2, len(scenarios) // 20):
+        raise Infra("tmux died in %d of %d lives" % (len(skipped), len(scenarios)))
+    for ix in skipped:
+        del results[ix]
     events = []
     for ix in sorted(results):
         events += results[ix]
     accepted, res = validate(ctx, events, "all")
-    ctx.cov["traces_validated_against_impl"] += len(scenarios)
+    ctx.cov["traces_validated_against_impl"] += len(results)
+    ctx.cov["lives_skipped_terminal_emulator_died"] = len(skipped)
     ctx.cov["evaluations"] += len(events)
 
     # deviations: lives accepted only through ExitLeavingPreview (1) / ExitLeavingReloadTemps (2) / both (3)
@@ -431,7 +447,7 @@ def run(ctx):
     # E comparison: the terminal received exactly the tracked mode changes the spec predicted
     e_bad = 0
     for ix, sc in enumerate(scenarios):
-        if sc["kind"] != "E" or ix in rejected:
+        if sc["kind"] != "E" or ix in rejected or ix not in results:
             continue
         got = lifecycle.tracked_ops(results[ix])
         if got != sc["expect_ops"]:
@@ -450,6 +466,8 @@ def run(ctx):
     distinct = set()
     hows, sizes = {}, set()
     for ix, sc in enumerate(scenarios):
+        if ix not in results:
+            continue
         kinds[sc["kind"]] += 1
         evs = results[ix]
         ops = lifecycle.tracked_ops(evs)
@@ -478,7 +496,7 @@ def run(ctx):
     ctx.cov["lives_with_deviation"] = {"preview_left": sum(1 for f in accepted.values() if f & 1), "reload_temps_left": sum(1 for f in accepted.values() if f & 2)}
     ctx.cov["rejected_lives"] = len(rejected)
     for ix, sc in enumerate(scenarios):
-        if sc["kind"] == "J" and len(sc["steps"]) > 2:
+        if ix in results and sc["kind"] == "J" and len(sc["steps"]) > 2:
             ctx.sample({"options": lifecycle.cfg_args(sc["cfg"]) + sc["extra"], "steps": sc["steps"],
                         "terminal_received": [(o["m"], o["on"]) for o in lifecycle.tracked_ops(results[ix])], "after_exit": results[ix][-1]})
             if len(ctx.cov["samples"]) >= 3:
